@@ -110,13 +110,13 @@ static void *h_memcpy (void *d, const void *s, size_t n) {
   uint64_t dk = H_BUF_IX (d), sk = H_IN_DATA (s) ? H_BUF_IX (s) : UINT64_MAX;
 #define H_C1 H_RANGE_OK (dk, n)
 #define H_C2 H_RANGE_OK (sk, n)
-#define H_C3 (!(H_C1 && H_C2) || sk + n <= dk || dk + n <= sk)
+#define H_C3 (sk + n <= dk || dk + n <= sk)
 #define H_C4 (!(H_C1 && H_C2) || sk + n <= dk)
   H_MASM (1, H_C1); H_MASM (2, H_C2); H_MASM (3, H_C3); /* focus: the other preconditions first (4 implies 3) */
-  H_MCHK (1, H_RANGE_OK (dk, n), "back-reference copy: destination range inside buf[]");
-  H_MCHK (2, H_RANGE_OK (sk, n), "back-reference copy: source range inside buf[]");
-  H_MCHK (3, !(H_RANGE_OK (dk, n) && H_RANGE_OK (sk, n)) || sk + n <= dk || dk + n <= sk, "back-reference copy: memcpy regions do not overlap");
-  H_MCHK (4, !(H_RANGE_OK (dk, n) && H_RANGE_OK (sk, n)) || sk + n <= dk, "back-reference copy: source lies in the part of buf[] produced before the destination");
+  H_MCHK (1, H_C1, "back-reference copy: destination range inside buf[]");
+  H_MCHK (2, H_C2, "back-reference copy: source range inside buf[]");
+  H_MCHK (3, !(H_C1 && H_C2) || H_C3, "back-reference copy: memcpy regions do not overlap");
+  H_MCHK (4, H_C4, "back-reference copy: source lies in the part of buf[] produced before the destination");
 #if H_CBMC
   H_ASSUME (H_RANGE_OK (dk, n) && H_RANGE_OK (sk, n) && sk + n <= dk);
   for (size_t i = 0; i < n; i++) h_data->buf[dk + i] = h_data->buf[sk + i];
